@@ -106,6 +106,27 @@ theorem epd4in2_any_history_then_update (progs : List (List Act)) (u : Uc)
   · exact (E2EA.Epd4in2_2.epd4in2_upd_from_any_state_quick_off_pf_plane1 u' ha' hp' l hs' bg sm od b0 h0).2
   · exact (E2EA.Epd4in2_2.epd4in2_upd_from_any_state_quick_on_nopf_plane1 u' ha' hp' l hs' bg sm od b0 h0).2
   · exact (E2EA.Epd4in2_2.epd4in2_upd_from_any_state_quick_on_pf_plane1 u' ha' hp' l hs' bg sm od b0 h0).2
+theorem ssd_run (bs : List Blk) : ∀ (s : Ssd), (Ctrl.ssd s).run bs = .ssd (bs.foldl Ssd.feed s) := by
+  induction bs with
+  | nil => intro s; rfl
+  | cons b bs ih => intro s; simp only [Ctrl.run, List.foldl_cons, Ctrl.feed] at ih ⊢; exact ih _
+
+theorem ssd_history (progs : List (List Act)) : ∀ (s : Ssd), Ssd.WfSize s → ∃ s' : Ssd,
+    progs.foldl (fun c a => c.run (blocksOf a)) (Ctrl.ssd s) = .ssd s' ∧ Ssd.WfSize s' := by
+  induction progs with
+  | nil => intro s hw; exact ⟨s, rfl, hw⟩
+  | cons a r ih =>
+    intro s hw
+    simp only [List.foldl_cons, ssd_run]
+    exact ih _ (Ssd.run_wf (blocksOf a) s hw)
+
+theorem ssd_ready_facts (s : Ssd) (h : ready (.ssd s) = true) : s.asleep = false ∧ s.entry = 3 := by
+  have : (Ssd.mode s).good = true := h
+  have e1 : (Ssd.mode s).asleep = s.asleep := rfl
+  have e2 : (Ssd.mode s).entry = s.entry := rfl
+  simp only [Ssd.Mode.good, e1, e2, Bool.and_eq_true, Bool.not_eq_true', beq_iff_eq] at this
+  exact this
+
 /-- non-vacuity: construction, a partial update of an interior window, a display, a windowed clear — a
     history the hypothesis of `epd4in2_any_history_then_update` accepts (for every buffer and driver state) -/
 example (d : DState) (b : Bytes) : ∀ a, a ∈ [((Drivers.Epd4in2.prog {} d .new).getD []),
